@@ -35,7 +35,7 @@ def run(tier, seed):
     try:
         for gi, g in enumerate(groups):
             h = Harness(ck, 'c11_g%02d' % gi, src.replace('__GROUP__', repr(g)).replace('__KNOWN_INF__', 'True' if known_inf else 'False')); hs.append(h)
-            only = ['total0_ok', 'total1_ok', 'total2_ok', 'error_kept_ok'] + (['total3_ok'] if not quick or gi % 4 == seed % 4 else []) + \
+            only = ['total0_ok', 'total1_ok', 'total2_ok', 'error_kept_ok', 'many_error_kept_ok'] + (['total3_ok'] if not quick or gi % 4 == seed % 4 else []) + \
                 ([] if quick else ['total4_ok'])
             batch.add(h, T, only=only, bounds='functions %s ... %s' % (g[0], g[-1]))
         batch.run()
